@@ -117,6 +117,8 @@ impl QueryEngine {
         Fut: Future<Output = Result<T>>,
     {
         self.register_metrics_table_for_chunks(chunk_paths).await?;
+        #[cfg(feature = "verif-hooks")]
+        crate::verif_hooks::pause("query.after_register").await;
         operation().await
     }
 
